@@ -34,6 +34,8 @@ def block(ctl, wid, tag):
 
 def main():
     ctl, wid = os.environ["VERIF_CTL"], os.environ["VERIF_WID"]
+    with open(os.path.join(ctl, "ccpid_%s" % wid), "w") as fh:     # lets the harness kill the compiler alone
+        fh.write(str(os.getpid()))
     real = os.environ.get("VERIF_REAL_CC", "cc")
     args = sys.argv[1:]
     oi = args.index("-o")
